@@ -1412,6 +1412,62 @@ static void run_eval_step(sexp ctx, sexp env, const std::string& src, StepResult
   sexp_gc_release4(ctx);
 }
 
+
+// ---------------------------------------------------------------------------
+// Embedder ops (C02 family 3): structures built through the C API and held ONLY in C locals registered
+// through the documented preservation interface (sexp_gc_var / sexp_gc_preserve, sexp_preserve_object)
+// while further allocations (and forced collections) happen; afterwards every register is written out.
+// Script: list of [op, dst, a, b, text]; registers 0..7.
+
+static std::string run_embed_script(sexp ctx, sexp env, const js::Value& script) {
+  sexp_gc_var4(r0, r1, r2, r3);
+  sexp r4 = SEXP_VOID, r5 = SEXP_VOID, r6 = SEXP_VOID, r7 = SEXP_VOID, t1 = SEXP_VOID, t2 = SEXP_VOID;
+  sexp_gc_preserve4(ctx, r0, r1, r2, r3);
+  // second group registered separately (two levels of the saves chain)
+  struct sexp_gc_var_t __sv4 = {NULL, NULL}, __sv5 = {NULL, NULL}, __sv6 = {NULL, NULL}, __sv7 = {NULL, NULL};
+  sexp_gc_preserve(ctx, r4, __sv4); sexp_gc_preserve(ctx, r5, __sv5); sexp_gc_preserve(ctx, r6, __sv6); sexp_gc_preserve(ctx, r7, __sv7);
+  struct sexp_gc_var_t __st1 = {NULL, NULL}, __st2 = {NULL, NULL};
+  sexp_gc_preserve(ctx, t1, __st1); sexp_gc_preserve(ctx, t2, __st2);
+  sexp* R[8] = {&r0, &r1, &r2, &r3, &r4, &r5, &r6, &r7};
+  for (int i = 0; i < 8; ++i) *R[i] = SEXP_NULL;
+  std::vector<sexp> kept;   // objects handed to sexp_preserve_object and then dropped from the registers
+  for (auto& opv : script.a) {
+    const js::Value& o = *opv;
+    if (o.kind != js::Value::Arr || o.a.size() < 4) continue;
+    std::string op = o.a[0]->s;
+    int d = (int)o.a[1]->i & 7, a = (int)o.a[2]->i & 7, b = (int)o.a[3]->i & 7;
+    std::string text = o.a.size() > 4 ? o.a[4]->s : "";
+    int64_t num = o.a[2]->i;
+    if (op == "cons") *R[d] = sexp_cons(ctx, *R[a], *R[b]);
+    else if (op == "list2") *R[d] = sexp_list2(ctx, *R[a], *R[b]);
+    else if (op == "list3") { t1 = sexp_list2(ctx, *R[a], *R[b]); *R[d] = sexp_cons(ctx, *R[d], t1); }
+    else if (op == "string") *R[d] = sexp_c_string(ctx, text.c_str(), (sexp_sint_t)text.size());
+    else if (op == "intern") *R[d] = sexp_intern(ctx, text.c_str(), -1);
+    else if (op == "fixnum") *R[d] = sexp_make_fixnum(num);
+    else if (op == "flonum") *R[d] = sexp_make_flonum(ctx, (double)num / 8.0);
+    else if (op == "bignum") { t1 = sexp_make_integer(ctx, (sexp_lsint_t)num * 1000003); t2 = sexp_make_integer(ctx, (sexp_lsint_t)1 << 62); *R[d] = sexp_mul(ctx, t1, t2); }
+    else if (op == "vector") { *R[d] = sexp_make_vector(ctx, sexp_make_fixnum((num & 15) + 1), *R[b]); }
+    else if (op == "vset") { if (sexp_vectorp(*R[d]) && sexp_vector_length(*R[d]) > 0) sexp_vector_set(*R[d], SEXP_ZERO, *R[a]); }
+    else if (op == "push") { sexp_push(ctx, *R[d], *R[a]); }
+    else if (op == "apply") {
+      t1 = sexp_eval_string(ctx, text.c_str(), -1, env);
+      if (!sexp_exceptionp(t1)) { t2 = sexp_list2(ctx, *R[a], *R[b]); *R[d] = sexp_apply(ctx, t1, t2); }
+    }
+    else if (op == "eval") *R[d] = sexp_eval_string(ctx, text.c_str(), -1, env);
+    else if (op == "read") *R[d] = sexp_read_from_string(ctx, text.c_str(), -1);
+    else if (op == "write") { t1 = sexp_write_to_string(ctx, *R[a]); *R[d] = t1; }
+    else if (op == "keep") { sexp_preserve_object(ctx, *R[a]); kept.push_back(*R[a]); *R[a] = SEXP_NULL; }
+    else if (op == "release") { if (!kept.empty()) { *R[d] = kept.back(); sexp_release_object(ctx, kept.back()); kept.pop_back(); } }
+    else if (op == "churn") { for (int64_t k = 0; k < (num & 255); ++k) { t1 = sexp_cons(ctx, sexp_make_fixnum(k), SEXP_NULL); t2 = sexp_c_string(ctx, "junk", -1); } }
+  }
+  std::string out;
+  for (int i = 0; i < 8; ++i) { out += write_to_string(ctx, *R[i]); out += "\n"; }
+  for (size_t i = 0; i < kept.size(); ++i) { out += "kept: " + write_to_string(ctx, kept[i]) + "\n"; }
+  for (auto k : kept) sexp_release_object(ctx, k);
+  sexp_gc_release4(ctx);   // releases back to the state before r0 (the chain is LIFO: releasing the first group drops the rest)
+  return out;
+}
+
 static int g_base_fds = 0;
 static bool g_destroyed = false;
 
@@ -1476,6 +1532,9 @@ static void run_plan(const js::Value& plan) {
         sr.res = "context-destroyed"; sr.exc = true;
       } else if (op == "eval") {
         run_eval_step(ctx, env, st.gets("src"), sr);
+      } else if (op == "embed") {
+        const js::Value* sc = st.get("script");
+        if (sc) sr.res = run_embed_script(ctx, env, *sc);
       } else if (op == "fdcount") {
         sr.res = std::to_string(count_open_fds() - g_base_fds);
       } else if (op == "destroy") {
